@@ -1,0 +1,21 @@
+// SPDX-FileCopyrightText: 2026 The Pion community <https://pion.ly>
+// SPDX-License-Identifier: MIT
+
+//go:build verif
+
+package jitterbuffer
+
+// C12Nodes returns the number of nodes linked into the interceptor's priority
+// queue (walks the list; the length field is a uint16 and wraps), the length
+// field, whether the buffer is emitting and the playout head (property C12).
+// Only compiled with the "verif" build tag.
+func C12Nodes(i *ReceiverInterceptor) (int, int, bool, uint16) {
+	i.m.Lock()
+	defer i.m.Unlock()
+	n := 0
+	for p := i.buffer.packets.next; p != nil && n < 1<<30; p = p.next {
+		n++
+	}
+
+	return n, int(i.buffer.packets.length), i.buffer.state == Emitting, i.buffer.playoutHead
+}
